@@ -124,6 +124,42 @@ def _extend(rng):
     return [], f"[ {jsxtag(rng)} {x} ]"
 
 
+def wnode(rng, d, top=False):
+    """a value the walk / the visitor can meet: any prop value or child, tagifiable objects with recorded expansions"""
+    r = rng.random()
+    if d <= 0 or (not top and r < 0.25):
+        q = rng.random()
+        if q < 0.45:
+            return c20.strlike(rng)
+        if q < 0.7:
+            return rng.choice(["O MetadataNode [ id I 1 ]", "O MetadataNode [ id I 2 ]", "O HTMLDependency [ name S " + es("dep") + " ]"])
+        if q < 0.9:
+            return c20.scalar(rng)
+        return rng.choice(["O Other [ ]", "L [ " + S("a") + " ]", "M [ " + es("k") + " I 1 ]", "M [ " + es("on_click") + " I 1 ]",
+                           "O TagList [ data L [ " + S("t") + " ] ]", "U [ ]"])
+    if r < 0.5:
+        ks = rng.sample(["id", "className", "data-x", "style", "x-", "p", "q"], rng.choice([0, 1, 2, 3]))
+        attrs = "M [ " + "".join(es(k) + " " + (wnode(rng, d - 1) if rng.random() < 0.6 else c20.jval(rng, 1)) + " " for k in ks) + "]"
+        if rng.random() < 0.05:
+            attrs = "M [ " + es("on_click") + " " + wnode(rng, d - 1) + " ]"     # Lean: unsupported (copy / setitem rename it)
+        kids = "".join(wnode(rng, d - 1) + " " for _ in range(rng.choice([0, 1, 2, 3])))
+        return f"O JSXTag [ name {S(rng.choice(['Foo', 'a.B']))} attrs {attrs} children O TagList [ data L [ {kids}] ] ]"
+    if r < 0.75:
+        kids = "".join(wnode(rng, d - 1) + " " for _ in range(rng.choice([0, 1, 2, 3])))
+        return (f"O Tag [ name {S(rng.choice(['div', 'span']))} attrs {c20.tag_attrs(rng)} children O TagList [ data L [ {kids}] ] "
+                f"add_ws {rng.choice(['T', 'F'])} ]")
+    q = rng.random()
+    if q < 0.75:
+        return f"O TagifiableObj [ tagify {wnode(rng, d - 1)} ]"
+    if q < 0.9:
+        return "O TagifiableObj [ tagify O TagList [ data L [ " + "".join(wnode(rng, d - 1) + " " for _ in range(rng.choice([0, 1, 2]))) + "] ] ]"
+    return "O TagifiableObj [ tagify " + rng.choice(["N", "I 3", "L [ ]"]) + " ]"
+
+
+def md_list(rng):
+    return "L [ " + "".join(rng.choice(["O MetadataNode [ id I 9 ]", S("x")]) + " " for _ in range(rng.choice([0, 0, 1, 2]))) + "]"
+
+
 C20B_GENS = {
     "JSXTagAttrDict_setitemC20b": lambda rng: ([], f"[ {stored(rng)} {S(raw_name(rng)) if rng.random() < 0.9 else rng.choice([J('a_'), 'N', 'I 3', H('a_')])} "
                                                    f"{c20.jval(rng, rng.choice([0, 1, 2]))} ]"),
@@ -135,6 +171,8 @@ C20B_GENS = {
     "JSXTag_extendC20b": _extend,
     "JSXTag_appendC20b": lambda rng: ([], f"[ {jsxtag(rng)} U [ {''.join(k + ' ' for k in children(rng))}] ]"),
     "JSXTag_copyC20b": lambda rng: ([], f"[ {jsxtag(rng)} ]"),
+    "JSXTag_tagify_visitorC20b": lambda rng: ([], f"[ {md_list(rng)} {wnode(rng, rng.choice([0, 1, 2]), top=rng.random() < 0.6)} ]"),
+    "walk_attrs_and_childrenC20b": lambda rng: ([], f"[ {wnode(rng, rng.choice([1, 2, 3, 4]), top=rng.random() < 0.8)} {md_list(rng)} ]"),
 }
 
 
